@@ -812,6 +812,105 @@ example : tryMapCoords (fun p => if p.x < 0 then .error p else .ok p)
       (.collection [.point ⟨1, 1⟩, .lineString [⟨2, 0⟩, ⟨-1, 0⟩, ⟨-2, 5⟩]]) = .error ⟨-1, 0⟩ := by
   norm_num [tryMapCoords, tryMapCoordsList, tryMapList]
 
+/-! ### the first failure in traversal order wins, on the whole tree -/
+
+/-- The error of a `Result`, if any. -/
+def errOf {ε α} : Except ε α → Option ε
+  | .error e => some e
+  | .ok _ => none
+
+private theorem errOf_tryMapList_cons {α β ε} (f : α → Except ε β) (a : α) (as : List α) :
+    errOf (tryMapList f (a :: as)) = (errOf (f a)).or (errOf (tryMapList f as)) := by
+  simp only [tryMapList]
+  cases f a <;> cases tryMapList f as <;> simp [errOf]
+
+private theorem errOf_tryMapList_append {α β ε} (f : α → Except ε β) :
+    ∀ l1 l2 : List α,
+      errOf (tryMapList f (l1 ++ l2)) = (errOf (tryMapList f l1)).or (errOf (tryMapList f l2))
+  | [], l2 => by simp [tryMapList, errOf]
+  | a :: l1, l2 => by
+      rw [List.cons_append, errOf_tryMapList_cons, errOf_tryMapList_cons,
+        errOf_tryMapList_append f l1 l2, Option.or_assoc]
+
+private theorem errOf_tryMapRings {ε} (f : Pt → Except ε Pt) :
+    ∀ ls : List (List Pt), errOf (tryMapList (tryMapList f) ls) = errOf (tryMapList f ls.flatten)
+  | [] => rfl
+  | r :: ls => by
+      rw [errOf_tryMapList_cons, List.flatten_cons, errOf_tryMapList_append, errOf_tryMapRings f ls]
+
+private theorem errOf_poly_tryMap {ε} (f : Pt → Except ε Pt) (p : Poly) :
+    errOf (Poly.tryMap f p) = errOf (tryMapList f p.coords) := by
+  rw [Poly.coords, errOf_tryMapList_append, ← errOf_tryMapRings]
+  simp only [Poly.tryMap]
+  cases tryMapList f p.ext <;> cases tryMapList (tryMapList f) p.ints <;> simp [errOf]
+
+private theorem errOf_tryMapPolys {ε} (f : Pt → Except ε Pt) :
+    ∀ ps : List Poly,
+      errOf (tryMapList (Poly.tryMap f) ps) = errOf (tryMapList f (ps.map Poly.coords).flatten)
+  | [] => rfl
+  | p :: ps => by
+      rw [errOf_tryMapList_cons, List.map_cons, List.flatten_cons, errOf_tryMapList_append,
+        errOf_tryMapPolys f ps, errOf_poly_tryMap]
+
+mutual
+/-- [T] `try_map_coords` fails exactly like the plain left-to-right `try_map` over the
+coordinates it feeds (`fed g`: the traversal; the two stored corners for `Rect`): same error,
+or no error — for every geometry and nesting. -/
+theorem tryMap_err_eq {ε} (f : Pt → Except ε Pt) :
+    ∀ g : Geom, errOf (tryMapCoords f g) = errOf (tryMapList f (fed g))
+  | .point p => by
+      simp only [tryMapCoords, fed, tryMapList]
+      cases f p <;> simp [errOf]
+  | .line a b => by
+      simp only [tryMapCoords, fed, tryMapList]
+      cases f a <;> cases f b <;> simp [errOf]
+  | .lineString cs => by
+      simp only [tryMapCoords, fed]; cases tryMapList f cs <;> rfl
+  | .polygon p => by
+      simp only [tryMapCoords, fed]; rw [← errOf_poly_tryMap]; cases Poly.tryMap f p <;> rfl
+  | .multiPoint ps => by
+      simp only [tryMapCoords, fed]; cases tryMapList f ps <;> rfl
+  | .multiLineString ls => by
+      simp only [tryMapCoords, fed]; rw [← errOf_tryMapRings]
+      cases tryMapList (tryMapList f) ls <;> rfl
+  | .multiPolygon ps => by
+      simp only [tryMapCoords, fed]; rw [← errOf_tryMapPolys]
+      cases tryMapList (Poly.tryMap f) ps <;> rfl
+  | .rect mn mx => by
+      simp only [tryMapCoords, fed, tryMapList]
+      cases f mn <;> cases f mx <;> simp [errOf]
+  | .triangle a b c => by
+      simp only [tryMapCoords, fed, tryMapList]
+      cases f a <;> cases f b <;> cases f c <;> simp [errOf]
+  | .collection gs => by
+      simp only [tryMapCoords, fed]; rw [← tryMap_err_eq_list f gs]
+      cases tryMapCoordsList f gs <;> rfl
+theorem tryMap_err_eq_list {ε} (f : Pt → Except ε Pt) :
+    ∀ gs : List Geom, errOf (tryMapCoordsList f gs) = errOf (tryMapList f (fedList gs))
+  | [] => rfl
+  | g :: gs => by
+      rw [fedList, errOf_tryMapList_append, ← tryMap_err_eq f g, ← tryMap_err_eq_list f gs]
+      simp only [tryMapCoordsList]
+      cases tryMapCoords f g <;> cases tryMapCoordsList f gs <;> simp [errOf]
+end
+
+/-- [T] the first failure in traversal order wins: `try_map_coords f g` is `Err e` exactly when
+some fed coordinate fails with `e` and every coordinate fed before it succeeds. -/
+theorem tryMap_first_err {ε} (f : Pt → Except ε Pt) (g : Geom) (e : ε) :
+    tryMapCoords f g = .error e ↔
+      ∃ pre x post, fed g = pre ++ x :: post ∧ (∀ y ∈ pre, ∃ z, f y = .ok z) ∧ f x = .error e := by
+  rw [← tryMapList_first_err]
+  have := tryMap_err_eq f g
+  cases h1 : tryMapCoords f g <;> cases h2 : tryMapList f (fed g) <;>
+    simp [h1, h2, errOf] at this ⊢
+  rw [this]
+
+example : tryMapCoords (fun p => if p.x < 0 then .error p else .ok p)
+      (.collection [.point ⟨1, 1⟩, .lineString [⟨2, 0⟩, ⟨-1, 0⟩, ⟨-2, 5⟩]]) = .error ⟨-1, 0⟩ :=
+  (tryMap_first_err _ _ _).2 ⟨[⟨1, 1⟩, ⟨2, 0⟩], ⟨-1, 0⟩, [⟨-2, 5⟩], rfl,
+    by intro y hy; simp at hy; rcases hy with rfl | rfl <;> norm_num,
+    by norm_num⟩
+
 /-! ## 5. `bounding_rect` is the component-wise minimum and maximum of the (exterior) traversal -/
 
 /-- `lo` / `hi` are the minimum / maximum of the non-empty list `vs`: they bound every member
